@@ -78,7 +78,7 @@ PROFILES = {
     'C04': dict(flatten_serial=True, pool=SYNC_OPS + ASYNC_LOSSLESS + LOSSY, need=ASYNC_LOSSLESS + LOSSY + ['sink_async'],
                 modes=['async', 'async', 'async', 'threaded'], md=1.0, refs=True, inject_failures=True, stalls=True, falsy_dedup=True, lazy_attach=True,
                 sinks=['native', 'tornado', 'future', 'sync']),
-    'C05': dict(pool=SYNC_OPS + ASYNC_LOSSLESS + LOSSY, modes=['loopless', 'async', 'async', 'threaded'], md=1.0, refs=True, stalls=True, falsy_dedup=True,
+    'C05': dict(collect_cache=True, pool=SYNC_OPS + ASYNC_LOSSLESS + LOSSY, modes=['loopless', 'async', 'async', 'threaded'], md=1.0, refs=True, stalls=True, falsy_dedup=True,
                 sinks=['sync', 'native', 'tornado', 'future']),
     'C08': dict(emit_at_once=0.35, falsy_dedup=True, pool=['timed_window', 'partition_t', 'timed_window_unique', 'map', 'filter', 'buffer', 'flatten'],
                 need=['timed_window', 'partition_t', 'timed_window_unique'], modes=['async', 'async', 'threaded'], md=0.3,
@@ -346,9 +346,12 @@ class G:
                     node['maxsize'] = self.pick([0, 1, 1, 2, 3])
                 members = list(ts)
                 if self.chance(0.3):
-                    pos = r.randrange(len(ps) + 1)
-                    node['literals'] = {str(pos): r.randrange(1, 9)}
-                    members.insert(pos, INT)
+                    # one or two literal arguments, anywhere among the streams (positions in the emitted tuple)
+                    nl = 2 if self.chance(0.4) else 1
+                    positions = sorted(r.sample(range(len(ps) + nl), nl))
+                    node['literals'] = {str(q): r.randrange(1, 9) for q in positions}
+                    rest = list(members)
+                    members = [INT if q in positions else rest.pop(0) for q in range(len(ps) + nl)]
                 self.add(node, ('fix', tuple(members)))
             elif op == 'combine_latest':
                 node = {'op': 'combine_latest', 'up': ps}
